@@ -27,6 +27,14 @@ pub enum Val {
     T((String, Vec<u32>)),
     BX(Box<String>),
     User(Blob),
+    /// Vec of thin owning pointers
+    VB(Vec<Box<String>>),
+    OB(Option<Box<String>>),
+    VOS(Vec<Option<String>>),
+    T3((Vec<u8>, Option<String>, Box<Vec<u32>>)),
+    RV(Result<Vec<String>, String>),
+    VV(Vec<Vec<u8>>),
+    BV(Box<Vec<String>>),
 }
 
 impl MemoryEstimator for Val {
@@ -41,6 +49,13 @@ impl MemoryEstimator for Val {
             Val::T(x) => x.estimate_memory(),
             Val::BX(x) => x.estimate_memory(),
             Val::User(x) => x.estimate_memory(),
+            Val::VB(x) => x.estimate_memory(),
+            Val::OB(x) => x.estimate_memory(),
+            Val::VOS(x) => x.estimate_memory(),
+            Val::T3(x) => x.estimate_memory(),
+            Val::RV(x) => x.estimate_memory(),
+            Val::VV(x) => x.estimate_memory(),
+            Val::BV(x) => x.estimate_memory(),
         }
     }
 }
@@ -58,6 +73,13 @@ impl Val {
             Val::T(x) => x.footprint(),
             Val::BX(x) => x.footprint(),
             Val::User(b) => b.declared,
+            Val::VB(x) => x.footprint(),
+            Val::OB(x) => x.footprint(),
+            Val::VOS(x) => x.footprint(),
+            Val::T3(x) => x.footprint(),
+            Val::RV(x) => x.footprint(),
+            Val::VV(x) => x.footprint(),
+            Val::BV(x) => x.footprint(),
         }
     }
     pub fn id(&self) -> u64 {
@@ -73,9 +95,19 @@ impl Val {
             Val::T((s, _)) => vhooks::rd_string(s),
             Val::BX(b) => vhooks::rd_string(b),
             Val::User(b) => b.id,
+            Val::VB(v) => vhooks::rd_string(&v[0]),
+            Val::OB(o) => vhooks::rd_string(o.as_ref().unwrap()),
+            Val::VOS(v) => vhooks::rd_string(v[0].as_ref().unwrap()),
+            Val::T3((b, _, _)) => vhooks::rd_bytes(b),
+            Val::RV(r) => match r {
+                Ok(v) => vhooks::rd_string(&v[0]),
+                Err(s) => vhooks::rd_string(s),
+            },
+            Val::VV(v) => vhooks::rd_bytes(&v[0]),
+            Val::BV(v) => vhooks::rd_string(&v[0]),
         }
     }
-    pub const VARIANTS: usize = 9;
+    pub const VARIANTS: usize = 16;
 
     /// Build variant `variant` carrying `id`, aiming at footprint `target` with `slack` unused
     /// capacity bytes inside it (capacity != length).  Returns the value; its real footprint is
@@ -136,7 +168,68 @@ impl Val {
                 Val::T((s_with(id, scap, 0), v))
             }
             7 => Val::BX(Box::new(s_with(id, target.saturating_sub(8 + sz_s), slack))),
-            _ => Val::User(Blob { id, declared: target }),
+            8 => Val::User(Blob { id, declared: target }),
+            9 => {
+                // two boxed strings: 24 + cap*8 + 2*(24+len)
+                let outer = if slack > 0 { 3 } else { 2 };
+                let fixed = std::mem::size_of::<Vec<Box<String>>>() + outer * 8 + 2 * sz_s;
+                let rest = target.saturating_sub(fixed).max(32);
+                let mut v = Vec::with_capacity(outer);
+                v.push(Box::new(s_with(id, rest / 2, 0)));
+                v.push(Box::new(s_with(id ^ 1, rest - rest / 2, slack.min(rest / 4))));
+                Val::VB(v)
+            }
+            10 => Val::OB(Some(Box::new(s_with(id, target.saturating_sub(8 + sz_s), slack)))),
+            11 => {
+                let outer = 2;
+                let fixed = std::mem::size_of::<Vec<Option<String>>>() + outer * std::mem::size_of::<Option<String>>();
+                let rest = target.saturating_sub(fixed).max(16);
+                let mut v = Vec::with_capacity(outer);
+                v.push(Some(s_with(id, rest, slack)));
+                v.push(None);
+                Val::VOS(v)
+            }
+            12 => {
+                let fixed = std::mem::size_of::<(Vec<u8>, Option<String>, Box<Vec<u32>>)>() + std::mem::size_of::<Vec<u32>>();
+                let rest = target.saturating_sub(fixed).max(36);
+                let nb = (rest / 3).max(8);
+                let ns = (rest / 3).max(16);
+                let n32 = rest.saturating_sub(nb + ns) / 4;
+                let mut b = Vec::with_capacity(nb);
+                b.extend_from_slice(&id.to_le_bytes());
+                b.resize(nb.saturating_sub(slack).max(8), 1);
+                Val::T3((b, Some(s_with(id, ns, 0)), Box::new((0..n32 as u32).collect::<Vec<u32>>())))
+            }
+            13 => {
+                let fixed = std::mem::size_of::<Result<Vec<String>, String>>();
+                if id % 3 == 0 {
+                    Val::RV(Err(s_with(id, target.saturating_sub(fixed), slack)))
+                } else {
+                    let rest = target.saturating_sub(fixed + sz_s).max(16);
+                    let mut v = Vec::with_capacity(1);
+                    v.push(s_with(id, rest, slack));
+                    Val::RV(Ok(v))
+                }
+            }
+            14 => {
+                let fixed = std::mem::size_of::<Vec<Vec<u8>>>() + 2 * std::mem::size_of::<Vec<u8>>();
+                let rest = target.saturating_sub(fixed).max(16);
+                let mut a = Vec::with_capacity(rest / 2);
+                a.extend_from_slice(&id.to_le_bytes());
+                a.resize((rest / 2).saturating_sub(slack).max(8), 2);
+                let b: Vec<u8> = vec![3u8; rest - rest / 2];
+                let mut v = Vec::with_capacity(2);
+                v.push(a);
+                v.push(b);
+                Val::VV(v)
+            }
+            _ => {
+                let fixed = 8 + std::mem::size_of::<Vec<String>>() + sz_s;
+                let rest = target.saturating_sub(fixed).max(16);
+                let mut v = Vec::with_capacity(1);
+                v.push(s_with(id, rest, slack));
+                Val::BV(Box::new(v))
+            }
         }
     }
 }
